@@ -239,6 +239,12 @@ def t1_names(ctx):
         okr = t in ("f.with_suffix(f'.{self.label}{f.suffix}')", "f.with_suffix('.%s%s'%(self.label,f.suffix))", "f.with_suffix('.'+self.label+f.suffix)")
     ctx.check(okr, 'C13.T1', rl, rn[0] if rn else 'rename_with_label', 'the label is inserted before the last suffix: name.ext -> name.<label>.ext',
               'the label is not inserted as name.<label>.ext (`%s`)' % (unparse(rn[0].args[0]) if rn and rn[0].args else '?'))
+    if rn:
+        loops_ = [a for a in rl.ancestors(rn[0]) if isinstance(a, ast.For)]
+        skips = [x for l_ in loops_ for x in ast.walk(l_) if isinstance(x, (ast.Continue, ast.Break))]
+        conds = [ifn for ifn, br in q.enclosing_ifs(rl, rn[0]) if any(q.contains(l_, ifn) for l_ in loops_)]
+        ctx.check(not skips and not conds, 'C13.T1', rl, (skips or conds or [rn[0]])[0], 'every file matched by the label patterns is renamed (no per-file exception)',
+                  'some matched files are not renamed (`%s`): the label is not inserted into every object file' % unparse((conds or skips)[0] if (conds or skips) else rn[0])[:80])
     guard = [i for i in rl.nodes(ast.If) if unparse(i.test).replace(' ', '') in ('notself.label', "self.label==''", 'self.labelisNone') and any(isinstance(x, ast.Return) for x in i.body)]
     ctx.check(bool(guard), 'C13.T1', rl, guard[0] if guard else 'rename_with_label', 'an empty label renames nothing', 'an empty label is not a no-op')
     # order in convert: rename after all files are written, compression after rename (finds labelled names)
